@@ -23,6 +23,7 @@ type Job struct {
 	Origin  string   `json:"origin"`
 	Vars    []string `json:"vars,omitempty"` // value of $v (JSON text), built like inputs
 	Mode    string   `json:"mode,omitempty"` // C06: restrict to one mode
+	Other   string   `json:"other,omitempty"` // C05: the input of the runs in between (steers per-Code state)
 }
 
 // LoadJobs reads a JSON array of jobs written by the check (corpus extracted from cli/test.yaml).
@@ -133,6 +134,15 @@ func (a *aliaser) build(v any) any {
 			}
 		}
 		return w
+	case *big.Int:
+		if a.mode == 2 { // equal big integers become ONE object: an in-place update of one shows in the others
+			key := "b" + v.String()
+			if w, ok := a.seen[key]; ok {
+				return w
+			}
+			a.seen[key] = v
+		}
+		return v
 	case map[string]any:
 		key := ""
 		if a.mode == 2 {
@@ -323,6 +333,9 @@ func CaseText(kind string, j Job, extra string) string {
 	if len(j.Vars) > 0 {
 		s += " vars=" + esc.Replace(strings.Join(j.Vars, ";"))
 	}
+	if j.Other != "" {
+		s += " other=" + esc.Replace(compact(j.Other))
+	}
 	return fmt.Sprintf("%s input=%s program=%s", s, esc.Replace(compact(j.Input)), esc.Replace(j.Program))
 }
 
@@ -369,6 +382,10 @@ func ParseCase(text string) (kind, extra string, j Job, ok bool) {
 	j.Program = unesc(text[pi+len(" program="):])
 	j.Input = unesc(text[ii+len(" input="):pi])
 	head := text[:ii]
+	if oi := strings.Index(head, " other="); oi >= 0 {
+		j.Other = unesc(head[oi+len(" other="):])
+		head = head[:oi]
+	}
 	if vi := strings.Index(head, " vars="); vi >= 0 {
 		j.Vars = strings.Split(unesc(head[vi+len(" vars="):]), ";")
 		head = head[:vi]
